@@ -16,6 +16,9 @@ RULE = ('table metrics (X of shape (n,1) holds frame ids, metric(X,y)=D[X[:,0],y
         'use_triangle_inequality on/off; entry points kcenters() and KCenters.fit(). A case is non-trivial '
         'when at least one iteration ran; distinct by canonical input')
 ASSUMPTIONS = [
+    'shortcut = plain is checked for cold starts and for initial centers that are distinct data frames at positive '
+    'mutual distance (the hypotheses of triangle_shortcut_same_partial) and, as known finding shortcut-offdata-init, '
+    'for distinct off-data centers; repeated / coinciding initial centers are only compared with the model',
     'numpy: argmax/argmin return the first extremal index, boolean-mask assignment, full/inf semantics',
     'small-integer table entries and their halves are exact in float64, so the rational model sees the same numbers',
     'the compiled euclidean/manhattan kernels return bit-identical values for a row whether called on the whole '
@@ -267,6 +270,17 @@ def real_run(case, tri=None, via=None):
     else:
         X = np.array(case['points'], dtype=case['dtype']).reshape(n, -1)
         metric = case['metric']
+        if not isinstance(case['n_clusters'], int):
+            # no finite n_clusters: guard the loop against a broken stopping rule (it would never return)
+            from enspara.cluster import util as cu
+            kernel = cu._get_distance_method(case['metric'])
+            klimit = [0, 6 * n + 60]
+
+            def metric(A, y):
+                klimit[0] += 1
+                if klimit[0] > klimit[1]:
+                    raise TooManyCalls()
+                return kernel(A, y)
         init = None if case['init'] is None else X[case['init']].copy()
         rows = {tuple(r): i for i, r in reversed(list(enumerate(X.tolist())))}
         ids = lambda c: rows[tuple(np.asarray(c).tolist())]  # noqa
@@ -467,9 +481,6 @@ def check_predicates(ctx, case, table, out, metric_ok, sep_ok):
 
 
 def compare_model(ctx, case, real, model, what):
-    if 'hang' in real:
-        ctx.violation('kcenters did not stop (metric called more often than any stopping run needs)', dict(case))
-        return False
     if 'error' in real:
         if model.get('error') != real['error']:
             ctx.disagreement('%s: real raised %s, model %s' % (what, real['error'], model), dict(case))
@@ -525,10 +536,24 @@ def process(ctx, case, model=None):
     if 'error' in real and real['error'].startswith('other:'):
         ctx.violation('kcenters failed with %s' % real['error'], dict(case))
         return
-    if not compare_model(ctx, case, real, model, 'kcenters (%s)' % case['via']):
+    if 'hang' in real:
+        ctx.violation('kcenters did not stop (metric called more often than any stopping run needs)', dict(case))
         return
-    if 'ok' not in real:
-        return
+    # 1. the property's predicates on the real output (independent of the model)
+    if 'ok' in real:
+        nviol = len(ctx.violations)
+        try:
+            real_predicates(ctx, case, table, real)
+        except Exception as e:  # noqa  (an oracle tripping over a malformed result is a failure of the result)
+            ctx.violation('result of kcenters is malformed (%s: %s)' % (type(e).__name__, e), dict(case))
+        if len(ctx.violations) > nviol:
+            return
+    # 2. model against implementation
+    compare_model(ctx, case, real, model, 'kcenters (%s)' % case['via'])
+
+
+def real_predicates(ctx, case, table, real):
+    n = case['n']
     rows = table
     idsn = range(n)
     # hypotheses of the metric-dependent claims, checked exactly on the table the code saw
